@@ -119,6 +119,10 @@ def evaluate(case):
                 expect_shared = ("file", su)
             elif shared_places:
                 expect_shared = ("file", shared_places[0])
+                if shared_places[0] in g["ggroup"]:
+                    # files matched by one glob pattern are imported in directory order, which is not defined:
+                    # any of the group's files that define the name may be the first
+                    expect_shared = ("file", shared_places[0], [i for i in shared_places if i in g["ggroup"]])
             elif -1 in case["shared_in"]:
                 expect_shared = ("builtin",)
             if expect_shared is not None and not (len(shared_places) >= 2 and case["provider"] == "fqn_importuri" and False):
@@ -212,12 +216,16 @@ def evaluate(case):
                                 ctx + f": load {li}: {use.name} in file {i} -> d{tf}_{di} is another object ({use.ref!r})")
                 if i == su and expect_shared is not None:
                     use = m.uses[k]
+                    also = []
                     if expect_shared[0] == "file":
                         tm = allm.get(os.path.realpath(F.fpath(g, tmp, expect_shared[1])))
                         want = [d for d in tm.defs if d.name == "shared"][0] if tm else None
+                        for j in (expect_shared[2] if len(expect_shared) > 2 else []):
+                            tj = allm.get(os.path.realpath(F.fpath(g, tmp, j)))
+                            also += [d for d in tj.defs if d.name == "shared"] if tj else []
                     else:
                         want = [d for d in list(mm.builtin_models)[0].defs if d.name == "shared"][0]
-                    if want is not None and use.ref is not want:
+                    if want is not None and use.ref is not want and not any(use.ref is d for d in also):
                         out.add("lookup_order/" + expect_shared[0], ctx + f": 'shared' resolved to an object of "
                                 f"{getattr(getattr(use.ref, 'parent', None), '_tx_filename', '?')}, expected {expect_shared}")
         return out
